@@ -14,14 +14,16 @@ pkgdir=$(dirname $place)
 runpat=$(head -1 $demo | grep -oE "\-run '?[A-Za-z0-9_|]+'?" | sed -E "s/-run '?//; s/'$//")
 mod=.
 case $place in gcetcbendorsement/*) mod=gcetcbendorsement; rel=${pkgdir#gcetcbendorsement}; rel=.${rel};; *) rel=./$pkgdir;; esac
+newdir=0; [ -d $wt/$pkgdir ] || { mkdir -p $wt/$pkgdir; newdir=1; }
+[ -n "$runpat" ] || runpat=.
 cp $demo $wt/$place
 suite() { (cd $wt && go build ./... && go test -vet=off -count=1 ./... 2>&1 | grep -E "^(ok|FAIL|---)" ; cd $wt/gcetcbendorsement && go test -vet=off -count=1 ./... 2>&1 | grep -E "^(ok|FAIL|---)") ; }
 rundemo() { (cd $wt/$mod && go test -vet=off -count=1 -run "$runpat" $rel 2>&1 | tail -15); }
 echo "### demo on unchanged tree"; d0=$(rundemo); echo "$d0" | tail -3
-rm $wt/$place; s0=$(suite | grep -E "^FAIL|^--- FAIL" | sed -E "s/[0-9.]+s//g" | sort); cp $demo $wt/$place
+rm $wt/$place; [ $newdir = 1 ] && rmdir $wt/$pkgdir; s0=$(suite | grep -E "^FAIL|^--- FAIL" | sed -E "s/[0-9.]+s//g" | sort); mkdir -p $wt/$pkgdir; cp $demo $wt/$place
 ( cd $wt && git apply $src/patch.diff ) || { echo "PATCH DOES NOT APPLY at $base"; git -C /repo worktree remove --force $wt; exit 3; }
 echo "### demo with change"; d1=$(rundemo); echo "$d1" | tail -5
-rm $wt/$place
+rm $wt/$place; [ $newdir = 1 ] && rmdir $wt/$pkgdir
 echo "### existing suite with change (failures; unchanged-tree failures: $(echo $s0 | tr '\n' ' '))"; s1=$(suite | grep -E "^FAIL|^--- FAIL" | sed -E "s/[0-9.]+s//g" | sort); echo "$s1"
 ok=1
 echo "$d0" | grep -q "^ok" || { echo "CONFIRM-FAIL: demo does not pass on unchanged tree"; ok=0; }
